@@ -44,6 +44,13 @@ class CategoricalInstance(PrefLibInstance):
         # The first few lines contain the metadata
         i = 0
         cat_name_pattern = re.compile(r"# CATEGORY NAME (\d+): ?(.*)")
+        reserved_cat_names = set()
+        if autocorrect:
+            # Names used by the file itself are never handed out as corrected names
+            for line in lines:
+                match = re.match(cat_name_pattern, line.strip())
+                if match:
+                    reserved_cat_names.add(match.group(2))
         for i in range(len(lines)):
             line = lines[i].strip()
             if line.startswith("#"):
@@ -61,6 +68,7 @@ class CategoricalInstance(PrefLibInstance):
                             while (
                                 cat_name + "__" + str(tmp)
                                 in self.categories_name.values()
+                                or cat_name + "__" + str(tmp) in reserved_cat_names
                             ):
                                 tmp += 1
                             self.categories_name[cat] = cat_name + "__" + str(tmp)
